@@ -82,6 +82,27 @@ func statelessTerm(r *prng.R) *Term {
 	if r.Chance(1, 3) {
 		body = &Term{K: TCombine, RecvCtr: -1, A: body, B: chain(1, leaf(TNormal))}
 	}
+	if r.Chance(1, 3) {
+		// the whole skeleton is constructed eagerly, outside every thunk: Combine, Loop and Bind
+		// VALUES (and whatever state they keep per value) are shared by all iterators started
+		// from this Seq; only what a Bind continues with is built per run
+		ebind := func(end *Term) *Term {
+			return &Term{K: TBind, RecvCtr: -1, Val: Expr{Ctr: -1, Lit: r.Range(1, 9)}, Th: &Thunk{Pre: eff(), Ret: chain(r.Intn(2), end)}}
+		}
+		var eager func(depth int) *Term
+		eager = func(depth int) *Term {
+			switch k := r.Intn(4); {
+			case depth > 0 && k == 0:
+				return &Term{K: TCombine, RecvCtr: -1, A: eager(depth - 1), B: eager(depth - 1)}
+			case depth > 0 && k == 1:
+				// an inner loop left by Break after its first yield(s)
+				return &Term{K: TLoop, RecvCtr: -1, A: &Term{K: TCombine, RecvCtr: -1, A: ebind(leaf(TNormal)), B: ebind(leaf(TBreak))}}
+			default:
+				return ebind(leaf(TNormal))
+			}
+		}
+		return &Term{K: TLoop, RecvCtr: -1, A: &Term{K: TCombine, RecvCtr: -1, A: eager(2), B: eager(2)}}
+	}
 	if body.K == TBind && r.Bool() {
 		// the loop body is a Bind constructed eagerly, outside every thunk: the Bind VALUE itself
 		// is shared by all iterators started from this Seq (every iteration yields, so no fuel issue)
